@@ -889,6 +889,13 @@ pub fn history_shards(ctx: &Ctx, out: &mut Outcome, cases_per_shard: u64) {
     }
     out.stats.evaluations += total;
     out.stats.add("process-history shards: cases judged in 6 fresh processes primed with protocol 5..0", total);
+    out.rule.push_str(
+        " Generated cases also vary the reuse history (0-2 earlier generation calls on the same generator, optionally taking the public \
+         output buffer in between), the choice among equivalent public API entry points (with_opcode_range vs with_min/max_opcodes vs public \
+         fields; with_mutators vs with_mutator; setters restating defaults omitted) and with_buffer_size. Process-history shards: six fresh \
+         child processes whose first generations use protocol 5,4,..,0 with all opt-in features on, each followed by a batch of ordinary cases \
+         under the same oracle.",
+    );
 }
 
 /// `pfverif shard-one <prop> <first_protocol> <casefile>`: prime like a shard, then judge one case
